@@ -484,6 +484,47 @@ def run(chk):
         for c in b.calls_to(path="emit_core::timestamp::parse_rfc3339::separator"):
             if not common.result_checked(b, c):
                 return False, "a separator check's result is ignored at %s" % c.loc, [], c.loc
+        # the zone: one more separator check, for `Z`, at an offset computed from the length (the last byte)
+        zone = [c for c in b.calls_to(path="emit_core::timestamp::parse_rfc3339::separator")
+                if mir.o_const_value(b.origin(c.args[2])) == ord("Z") and mir.o_const_value(b.origin(c.args[1])) is None
+                and any(r_[0] == "callsite" or r_[0] == "param" for r_ in common.roots(b.origin(c.args[1])))]
+        fp = [c for c in b.calls(normal_only=True) if c.callee.get("name") == "from_parts"]
+        if not fp:
+            raise mir.AnchorMissing("Timestamp::from_parts in parse_rfc3339")
+        if len(zone) != 1 or not all(b.dominates(zone[0].bb, c.bb) for c in fp):
+            return False, "the zone designator is not checked to be `Z` at the last byte on every accepting path: `2024-01-01T00:00:00+` or a local time would parse as UTC", [], b.span
+        # the separator helper itself fails on a mismatch
+        sp = P.body("emit_core::timestamp::parse_rfc3339::separator")
+        tests = [(bb_, t_) for bb_, t_ in sp.switches() if mir.norm_bool(sp.switch_origin(bb_))[0][0] == "call"
+                 and mir.norm_bool(sp.switch_origin(bb_))[0][1].callee.get("name") in ("ne", "eq")]
+        if len(tests) != 1:
+            raise mir.AnchorMissing("the comparison in parse_rfc3339::separator")
+        sbb, st_ = tests[0]
+        so_, pos_ = mir.norm_bool(sp.switch_origin(sbb))
+        is_ne = so_[1].callee.get("name") == "ne"
+        for v_, tgt_ in [(v_, n_) for v_, n_ in st_["targets"]] + [("otherwise", st_["otherwise"])]:
+            truth = (str(v_) != "0") == pos_
+            differ = truth if is_ne else not truth
+            if differ:
+                for rb_ in sp.return_blocks():
+                    for path_ in sp.acyclic_paths(tgt_, rb_, limit=50):
+                        r_ = mir.PathSummary(sp, [sbb] + path_).ret()
+                        if not (r_[0] == "agg" and r_[1].get("variant") == "Err"):
+                            return False, "separator() accepts a byte that differs from the expected one (its mismatch edge returns %s)" % mir.o_str(r_), [], sp.span
+        # the fraction, when there is one, has at least one digit: `....00.Z` is not a timestamp
+        emp = [(bb_, t_) for bb_, t_ in b.switches() if mir.norm_bool(b.switch_origin(bb_))[0][0] == "call"
+               and mir.norm_bool(b.switch_origin(bb_))[0][1].callee.get("name") == "is_empty"]
+        okf = False
+        for bb_, t_ in emp:
+            so_, pos_ = mir.norm_bool(b.switch_origin(bb_))
+            for v_, tgt_ in [(v_, n_) for v_, n_ in t_["targets"]] + [("otherwise", t_["otherwise"])]:
+                if ((str(v_) != "0") == pos_):
+                    rets = [mir.PathSummary(b, [bb_] + path_).ret() for rb_ in b.return_blocks() for path_ in b.acyclic_paths(tgt_, rb_, limit=50)]
+                    if rets and all(r_[0] == "agg" and r_[1].get("variant") == "Err" or (r_[0] == "call" and r_[1].callee.get("name") == "from_residual") for r_ in rets) \
+                            and not any(c.bb in b.reachable_from(tgt_) for c in b.calls_to(path="emit_core::timestamp::parse_rfc3339::digits")):
+                        okf = True
+        if not okf:
+            return False, "an empty fraction (`.` directly followed by `Z`) is not rejected before its digits are read", [], b.span
         dg = b.calls_to(path="emit_core::timestamp::parse_rfc3339::digits")
         if len(dg) != 7:
             return False, "expected 7 digit fields, found %d" % len(dg), [], b.span
@@ -694,6 +735,30 @@ def run(chk):
                      (b.switch_origin(gbb)[2][0] == "call" and b.switch_origin(gbb)[2][1].bb == g[0].bb)) for gbb, vals, n in b.guards_of(i))
             if not ok:
                 return False, "a byte is accumulated without having been checked to be an ASCII digit", [], b.span
+        # what is returned is the accumulated value: value = value * 10 + (byte - b'0') inside the loop, Ok(value) after it
+        r = b.origin(0)
+        acc = None
+        for x in (r[1] if r[0] == "phi" else [r]):
+            if x[0] == "agg" and x[1].get("variant") == "Ok" and x[2]:
+                acc = x[2][0]
+        def has(o, pred, d=0):
+            if d > 14:
+                return False
+            if pred(o):
+                return True
+            if o[0] == "phi":
+                return any(has(y, pred, d + 1) for y in o[1])
+            if o[0] in ("field", "cast", "copy", "downcast"):
+                return has(o[1], pred, d + 1)
+            if o[0] == "binop":
+                return has(o[2], pred, d + 1) or has(o[3], pred, d + 1)
+            if o[0] == "call" and o[1].callee.get("name") in ("from", "into", "try_from", "try_into", "unwrap"):
+                return any(has(b.origin(a_), pred, d + 1) for a_ in o[1].args)
+            return False
+        if acc is None or not has(acc, lambda o: o[0] == "binop" and o[1] in ("Mul", "MulWithOverflow") and mir.o_const_value(o[3]) == 10) \
+                or not has(acc, lambda o: o[0] == "binop" and o[1] in ("Sub", "SubWithOverflow") and mir.o_const_value(o[3]) == 48):
+            return False, ("digits() does not return value * 10 + (byte - b'0') accumulated over the bytes (it returns %s): every numeric field would parse "
+                           "to another number" % (mir.o_str(acc)[:120] if acc is not None else mir.o_str(r)[:120])), [], b.span
         return True, "", [g[0].loc]
     chk.ob("C15.R4:digits", "only ASCII digits are accumulated (signs and other bytes are errors)", digits_fn)
 
@@ -704,4 +769,135 @@ def run(chk):
                                                ("emit_core", "src/path.rs"), ("emit", "src/level.rs")], 5)
     common.hex_id_fromvalue_rule(chk, P, "C15")
     common.level_parser_table(chk, P, "C15")
+    def formatter_digit_table():
+        """The RFC 3339 formatter fills a fixed template (`0000-00-00T00:00:00.000000000Z`): every `0` of the date-time part is overwritten, once, by
+        `b'0' + digit`, and within each run of zeros the digits are those of *one* calendar part (the parts in the order years, months, days,
+        hours, minutes, seconds) taken at descending powers of ten down to the units - every digit but a run's first reduced `% 10`.  A missing
+        store leaves a literal `0` in the text; a wrong divisor or part prints another number: either way the text no longer parses back to the
+        instant.  The fraction loop writes `nanos / divisor % 10` at a cursor that steps by one while the divisor, starting at 10^8, is divided
+        by ten; the zone letter is stored at the cursor after the loop."""
+        b = P.body("emit_core::timestamp::fmt_rfc3339")
+        tpl = None
+        for k, v in P.consts.items():
+            if k.startswith("emit_core::timestamp::fmt_rfc3339::") and isinstance(v.get("v"), dict) and "bytes" in v["v"]:
+                tpl = v["v"]["bytes"]
+        if not tpl:
+            raise mir.AnchorMissing("the formatter's template constant")
+        dot = tpl.index(46) if 46 in tpl else len(tpl)
+        runs, cur = [], []
+        for i_, ch in enumerate(tpl[:dot]):
+            if ch == 48:
+                cur.append(i_)
+            elif cur:
+                runs.append(cur)
+                cur = []
+        if cur:
+            runs.append(cur)
+        adt = P.adt("emit_core::timestamp::Parts")
+        fields = [f_["name"] for f_ in adt["variants"][0]["fields"]]
+        if len(runs) != 6 or len(fields) < 7:
+            raise mir.AnchorMissing("six digit runs in the template / seven calendar parts (found %d / %d)" % (len(runs), len(fields)))
+        stores = {}
+        loop_store = None
+        zone = None
+        for bb, j, st in b.statements(normal_only=True):
+            if st["k"] != "assign" or not st["place"].get("p") or st["rv"]["k"] != "use":
+                continue
+            ix = [p_ for p_ in st["place"]["p"] if isinstance(p_, dict) and "idx" in p_]
+            if not ix:
+                continue
+            io = b.origin({"c": {"l": ix[0]["idx"]}})
+            k = mir.o_const_value(io)
+            o = b.origin(st["rv"]["op"])
+            if isinstance(k, int) and not b.in_cycle(bb):
+                stores.setdefault(k, []).append((bb, o))
+            elif b.in_cycle(bb):
+                loop_store = (bb, o, ix[0]["idx"])
+            elif mir.o_const_value(o) == 90:
+                zone = (bb, ix[0]["idx"])
+        def digit(o):
+            # (part name, divisor, reduced mod 10) of `48 + (part / d % 10)`
+            if o[0] == "field":
+                o = o[1]
+            if not (o[0] == "binop" and o[1] in ("Add", "AddWithOverflow")):
+                return None
+            a, c = o[2], o[3]
+            if mir.o_const_value(a) != 48:
+                a, c = c, a
+            if mir.o_const_value(a) != 48:
+                return None
+            while c[0] == "cast":
+                c = c[1]
+            mod = False
+            if c[0] == "binop" and c[1] == "Rem" and mir.o_const_value(c[3]) == 10:
+                mod, c = True, c[2]
+            d = 1
+            if c[0] == "binop" and c[1] == "Div":
+                d = mir.o_const_value(c[3]) if mir.o_const_value(c[3]) is not None else ("local", c[3])
+                c = c[2]
+            while c[0] == "cast":
+                c = c[1]
+            nm = (mir.o_field_path(c)[1] or [None])[-1]
+            return nm, d, mod
+        ev = []
+        for ri, run in enumerate(runs):
+            for pi, pos in enumerate(run):
+                ss = stores.get(pos, [])
+                if len(ss) != 1:
+                    return False, ("byte %d of the formatted timestamp (a digit of `%s`) is stored %d times: a template `0` left in place (or overwritten twice) "
+                                   "makes the text denote another instant" % (pos, fields[ri], len(ss))), [], b.span
+                dg = digit(ss[0][1])
+                want_d = 10 ** (len(run) - 1 - pi)
+                if dg is None or dg[0] != fields[ri] or dg[1] != want_d or (pi > 0 and not dg[2] and want_d != 10 ** (len(run) - 1)):
+                    return False, ("byte %d of the formatted timestamp must be the %s digit of `%s` (b'0' + %s / %d%s), found %s"
+                                   % (pos, ["units", "tens", "hundreds", "thousands"][len(run) - 1 - pi], fields[ri], fields[ri], want_d,
+                                      " % 10" if pi > 0 else "", mir.o_str(ss[0][1])[:100])), [], b.span
+                if pi > 0 and not dg[2]:
+                    return False, "byte %d of the formatted timestamp is not reduced % 10" % pos, [], b.span
+            ev.append("%s -> bytes %s" % (fields[ri], run))
+        extra = [k for k in stores if k < dot and k not in [p_ for r_ in runs for p_ in r_]]
+        if extra:
+            return False, "a separator byte (%s) of the template is overwritten" % extra, [], b.span
+        # the fraction loop
+        if loop_store is None or zone is None:
+            return False, "the fraction digits / the zone letter are not written", [], b.span
+        dg = digit(loop_store[1])
+        if dg is None or dg[0] != fields[6] or not dg[2] or not isinstance(dg[1], tuple):
+            return False, "a fraction digit must be b'0' + nanos / divisor %% 10, found %s" % mir.o_str(loop_store[1])[:100], [], b.span
+        def local_of(o):
+            while o[0] in ("copy", "cast"):
+                o = o[1]
+            return o[2] if o[0] == "phi" and len(o) > 2 else (o[1] if o[0] == "local" else None)
+        dl = local_of(dg[1][1])
+        il = loop_store[2]
+        def shapes(l):
+            out = set()
+            for d_ in b.defs().get(l, ()):
+                if b.blocks[d_[0]]["cleanup"] or d_[2] == "partial":
+                    continue
+                o = b._origin_def(d_, 0, (), set())
+                if o[0] == "field":
+                    o = o[1]
+                if o[0] == "const":
+                    out.add(("const", mir.o_const_value(o)))
+                elif o[0] == "binop":
+                    out.add((o[1].replace("WithOverflow", ""), mir.o_const_value(o[3])))
+                elif o[0] in ("copy", "local", "phi"):
+                    ll = local_of(o)
+                    if ll is not None and ll != l:
+                        out |= shapes(ll)
+                else:
+                    out.add(("other", mir.o_str(o)[:40]))
+            return out
+        if dl is None or not {("const", 100000000), ("Div", 10)} <= shapes(dl):
+            return False, "the fraction divisor must start at 10^8 and be divided by ten per digit (found %s)" % sorted(map(str, shapes(dl) if dl is not None else [])), [], b.span
+        if ("Add", 1) not in shapes(il):
+            return False, "the fraction cursor is not stepped by one per digit", [], b.span
+        ev.append("fraction: nanos / divisor % 10, divisor 10^8 /= 10, cursor += 1; zone letter after the loop")
+        return True, "", ev
+    chk.ob("C15.R4:formatter-digit-table", "every digit position of the RFC 3339 template is written once with the right digit of the right calendar part", formatter_digit_table)
+
+    if not getattr(chk, "_overlay", None):
+        from . import c14
+        c14.kind_table_agreement(chk, P, "C15.R6:Kind-table")
     return chk
